@@ -6,14 +6,18 @@
    region named by its call index).  `fixed` = the code as repaired (D2 D3 D4 D5 D20).
    inv c idx s = no out-of-bounds access happened, ids unique and below idx, the table tracks exactly the live blocks, all
    regions of live blocks (blocks and separate records) distinct and older than the call counter, every block laid out
-   soundly with as many content bytes as its size. *)
+   soundly with as many content bytes as its size.
+   Scenarios with memory accounting on ([sc_wrap], C05_Wrapper.v): the AccountingTestMemoryAllocator wrappers are transparent
+   (same pointer, same size), so [run] is that of the scenario without wrappers; [spec] demands the same of the observation
+   except for the sizes and the balance of the underlying calls, of which it reads only whether one failed. *)
 From Coq Require Import NArith List Bool Permutation.
-From CppUVerif Require Import gen.Gen_Common gen.Gen_C05 lib.Str C05_Model C05_Proofs C05_History C05_Theorems.
+From CppUVerif Require Import gen.Gen_Common gen.Gen_C05 lib.Str C05_Model C05_Proofs C05_History C05_Theorems C05_Wrapper.
 From CppUVerif Require C05_LeafTie.
 Import ListNotations.
 Local Open Scope N_scope.
 
-(* every valid scenario (any sizes below 2^64, any fault points, both builds): the model's observation passes the oracle *)
+(* every valid scenario (any sizes below 2^64, any fault points, both builds, with or without the accounting wrappers -- wrapper
+   scenarios carry no fault points): the model's observation passes the oracle *)
 Theorem C05_run_meets_spec : forall sc, valid sc = true -> spec sc (run sc) = true.
 Proof. exact run_meets_spec. Qed.
 Print Assumptions C05_run_meets_spec.
@@ -147,3 +151,54 @@ Print Assumptions C05_old_refuted.
 Theorem C05_size_arithmetic_is_the_source : C05_LeafTie.C05_size_arithmetic_is_the_source_stmt.
 Proof. exact C05_LeafTie.C05_size_arithmetic_is_the_source. Qed.
 Print Assumptions C05_size_arithmetic_is_the_source.
+
+(* ---- memory accounting on: AccountingTestMemoryAllocator between the entry points and the underlying allocator ---- *)
+(* the wrapper (mirror of alloc_memory and its tracking list) is transparent: it returns the pointer the wrapped allocator
+   returned for exactly the requested size -- same address, same alignment --, asks for its node separately, and pushes the node *)
+Theorem C05_wrapper_transparent : forall node_sz und k l size p l' cs,
+  w_alloc node_sz und k l size = Some (p, l', cs) ->
+  p = und k size /\ p mod 16 = und k size mod 16 /\
+  cs = [UAlloc size p; UAlloc node_sz (und (k + 1) node_sz)] /\ und (k + 1) node_sz <> 0 /\
+  l' = {| wn_addr := und (k + 1) node_sz; wn_mem := p; wn_size := size |} :: l.
+Proof. exact wrapper_transparent. Qed.
+Print Assumptions C05_wrapper_transparent.
+
+(* free_memory after alloc_memory: the tracking list is as before, exactly the two pointers obtained are given back, the block as
+   the pointer the caller holds *)
+Theorem C05_wrapper_alloc_free : forall node_sz und k l size p l' cs,
+  w_alloc node_sz und k l size = Some (p, l', cs) ->
+  w_free l' p = (l, [UFree (und (k + 1) node_sz) size; UFree p size]).
+Proof. exact wrapper_alloc_free. Qed.
+Print Assumptions C05_wrapper_alloc_free.
+
+(* the variant with the 24-byte node in front of the block (one request of 24 + size, returns block + 24): wherever the wrapped
+   allocator returns 16-aligned memory, the block is 8 mod 16 -- not suitably aligned *)
+Theorem C05_wrapper_prefix_refuted : forall und k l size,
+  und k (NODE + size) <> 0 -> und k (NODE + size) mod 16 = 0 ->
+  fst (fst (w_alloc_prefix NODE und k l size)) mod 16 = 8.
+Proof. exact wrapper_prefix_refuted. Qed.
+Print Assumptions C05_wrapper_prefix_refuted.
+
+(* the model's observation of a scenario does not depend on the wrappers being installed (it only echoes the flag) *)
+Theorem C05_run_wrap_independent : forall v b sc, run_v v (set_wrap b sc) = obs_set_wrap b (run_v v sc).
+Proof. exact run_wrap_independent. Qed.
+Print Assumptions C05_run_wrap_independent.
+
+(* the oracle with wrappers demands nothing it does not demand without them ... *)
+Theorem C05_spec_wrap_monotone : forall sc o, sc_wrap sc = false -> spec sc o = true -> spec (set_wrap true sc) (obs_set_wrap true o) = true.
+Proof. exact spec_wrap_monotone. Qed.
+Print Assumptions C05_spec_wrap_monotone.
+
+(* ... of the underlying call logs it reads only whether a call failed ([canon]: the projection applied to both observations of
+   a wrapper scenario before they are compared) ... *)
+Theorem C05_spec_wrap_reads_failure_only : forall sc o, sc_wrap sc = true -> spec sc (canon o) = spec sc o.
+Proof. exact spec_wrap_reads_failure_only. Qed.
+Print Assumptions C05_spec_wrap_reads_failure_only.
+
+(* ... and, wrappers or not, an accepted observation has every returned pointer 0 mod 16, overlapping no other live block or
+   record, user bytes + guard and record laid out inside the region(s) for some size below 2^64, no report, no failed call; the
+   flag echoed; at the end nothing tracked and no report *)
+Theorem C05_spec_demands : forall sc o, spec sc o = true ->
+  ob_wrap o = sc_wrap sc /\ Forall (ptr_sound (sc_cfg sc)) (ob_ops o) /\ ob_end_total o = 0 /\ ob_end_rep o = 0.
+Proof. exact spec_demands. Qed.
+Print Assumptions C05_spec_demands.
